@@ -32,3 +32,7 @@ package graph
 //@   loop 2 (ei) invariant eq
 //@   loop 3 (ei) invariant true
 //@   assigns nothing
+
+//@ assume pure BiGraph.NumNodes
+//@ assume pure BiGraph.In
+//@ assume pure BiGraph.Out
